@@ -7,6 +7,7 @@ use etherparse::{IpFragOffset, IpNumber, SlicedPacket};
 use std::collections::VecDeque;
 
 fn show_err(e: &IpDefragError) -> String {
+    crate::util::touch(e);
     use IpDefragError::*;
     match e {
         UnalignedFragmentPayloadLen {
